@@ -9,6 +9,7 @@ import CB.Lemmas.C05Query
 import CB.Lemmas.C05Int
 import CB.Lemmas.C05Boxed
 import CB.Lemmas.C05Small
+import CB.Lemmas.C05BitForms
 namespace CB.P05
 open CB CB.Shift CB.Bits
 
@@ -435,5 +436,46 @@ theorem limb_shift_spec {x s : Nat} (hx : x < B) (hs : s < 64) :
   refine ⟨by simp [limbShl, hs, wshl], by simp [limbShr, hs, wshr], ?_⟩
   unfold limbBits wlz
   have := bitlen_word_le hx; omega
+
+/-! ## T05.9 (coverage round) bitwise operators of `Int<LIMBS>` and of `Limb`
+
+`Int` is a newtype over `Uint`; every spelling (inherent, `wrapping_*`, `checked_*`, operators by value / reference /
+assigning, `Wrapping<Int>`) ends in the `Uint` limb loops.  The harness cross-checks the spellings on every line. -/
+
+open CB.BitForms in
+/-- T05.9a `Int` `&`, `|`, `^`, `bitand_limb` act on the two's-complement bit pattern as the `Nat` bit operators
+    (width and well-formedness preserved); the `checked_*` forms are always `some`. -/
+theorem int_bitops_spec {a b : List Nat} (ha : WF a) (hb : WF b) (h : a.length = b.length) :
+    (val (intBitand a b) = val a &&& val b ∧ (intBitand a b).length = a.length ∧ WF (intBitand a b)) ∧
+    (val (intBitor a b) = val a ||| val b ∧ (intBitor a b).length = a.length ∧ WF (intBitor a b)) ∧
+    (val (intBitxor a b) = val a ^^^ val b ∧ (intBitxor a b).length = a.length ∧ WF (intBitxor a b)) ∧
+    (∀ l, val (intBitandLimb a l) = val a &&& val (List.replicate a.length (l % B))) ∧
+    (∀ r, (intChecked r).2 = mask true ∧ (intChecked r).1 = r) := by
+  have h1 := val_ubitand ha hb h
+  have h2 := val_ubitor ha hb h
+  have h3 := val_ubitxor ha hb h
+  exact ⟨⟨h1.1, h1.2.2, h1.2.1⟩, ⟨h2.1, h2.2.2, h2.2.1⟩, ⟨h3.1, h3.2.2, h3.2.1⟩,
+    fun l => ubitandLimb_spec ha l, fun _ => ⟨rfl, rfl⟩⟩
+
+open CB.BitForms in
+/-- T05.9b `!` on `Int`: the complement within the width, i.e. `-x - 1` on the signed value. -/
+theorem int_not_spec {a : List Nat} (ha : WF a) (hne : a ≠ []) :
+    val (intNot a) = B ^ a.length - 1 - val a ∧ toInt (intNot a) = - toInt a - 1 ∧
+    (intNot a).length = a.length := by
+  have h := val_unot ha
+  exact ⟨by have := h.1; unfold intNot; omega, toInt_intNot ha hne, h.2.2⟩
+
+open CB.BitForms in
+/-- T05.9c `Limb` `&`, `|`, `^`, `!` (and `&=`, `|=`, `^=`): the word operators, results are words. -/
+theorem limb_bitops_spec {x y : Nat} (hx : x < B) (hy : y < B) :
+    (limbAnd x y = x &&& y ∧ limbAnd x y < B) ∧ (limbOr x y = x ||| y ∧ limbOr x y < B) ∧
+    (limbXor x y = x ^^^ y ∧ limbXor x y < B) ∧ (limbNot x = B - 1 - x ∧ limbNot x < B) := by
+  refine ⟨⟨rfl, and_lt_B hx⟩, ⟨rfl, or_lt_B hx hy⟩, ⟨rfl, xor_lt_B hx hy⟩, ?_, ?_⟩
+  · unfold limbNot; rw [wnot_eq hx]; simp only [WMAX_def, B_def]
+  · unfold limbNot; rw [wnot_eq hx]; simp only [WMAX_def, B_def] at *; omega
+
+open CB.BitForms in
+example : toInt (intNot [0, HALF]) = - toInt [0, HALF] - 1 ∧ val (intBitand [WMAX, HALF] [1, WMAX]) = val [1, HALF] := by
+  decide
 
 end CB.P05
